@@ -1,6 +1,7 @@
 package checks
 
 import (
+	"os"
 	"fmt"
 	"runtime/debug"
 	"time"
@@ -139,8 +140,21 @@ func RunC08(p *harness.Program, thorough bool) Result {
 		if v := shrinkReleaseFaults(p.Cfg, aux(p, 1), c); v != nil {
 			return Result{V: v, Counters: c}
 		}
-		if v := mixedBatchFaults(p.Cfg.PageSize, aux(p, 1), c); v != nil {
-			return Result{V: v, Counters: c}
+		// (own watchdog: C08 cases run under the long enumeration guard, and a writer that stops
+		// releasing its write syncs makes Commit, Close or the drain hook wait for ever)
+		mc := map[string]int{}
+		mdone := make(chan *harness.Violation, 1)
+		go func() { mdone <- mixedBatchFaults(p.Cfg.PageSize, aux(p, 1), mc) }()
+		select {
+		case v := <-mdone:
+			for k, n := range mc {
+				c[k] += n
+			}
+			if v != nil {
+				return Result{V: v, Counters: c}
+			}
+		case <-time.After(2 * HangTimeout):
+			return Result{V: &harness.Violation{Clause: "hang", Item: -1, Msg: "mixed writer batch under a write failure: an operation (Commit, drain, Close or reopen) does not return"}, Counters: c}
 		}
 	}
 
@@ -768,7 +782,18 @@ func mixedBatchFaults(pageSize uint32, seed uint64, c map[string]int) (v *harnes
 			// park the writer, queue the writes of tx1 (abandoned) and tx2
 			parked := d.Hold(simdisk.CallWrite)
 			tx1, _ := f.Begin()
-			for i := 1; i < n0; i += 2 {
+			// the first page of tx1 is flushed alone: the writer takes it and parks in that write; everything
+			// queued from now on (rest of tx1, tx2) ends up together in the writer's next batch
+			if pg, err := tx1.Page(ids[1]); err == nil {
+				pg.SetBytes(harness.Content(881001, ps))
+				pg.Flush()
+			}
+			select {
+			case <-parked:
+			case <-time.After(HangTimeout):
+				return fail("hang", "the background writer did not start writing")
+			}
+			for i := 3; i < n0; i += 2 {
 				if pg, err := tx1.Page(ids[i]); err == nil {
 					pg.SetBytes(harness.Content(881000+i, ps))
 				}
@@ -779,11 +804,6 @@ func mixedBatchFaults(pageSize uint32, seed uint64, c map[string]int) (v *harnes
 				}
 			}
 			tx1.Flush()
-			select {
-			case <-parked:
-			case <-time.After(HangTimeout):
-				return fail("hang", "the background writer did not start writing")
-			}
 			tx1.Close()
 			tx2, err := f.Begin()
 			if err != nil {
@@ -820,6 +840,9 @@ func mixedBatchFaults(pageSize uint32, seed uint64, c map[string]int) (v *harnes
 				return &harness.Violation{Clause: "hang", Item: -1, Msg: fmt.Sprintf("mixed writer batch, failing write #%d (mode %d): Commit of the second transaction does not return", k, mode)}
 			}
 			c["mixed-batch-runs"]++
+			if os.Getenv("VERIF_QDEBUG") != "" {
+				fmt.Fprintf(os.Stderr, "k=%d mode=%d queued=%d commit=%v injected=%d\n", k, mode, queued, err, d.Injected())
+			}
 			d.Arm(nil)
 			f.VerifDrainWriter()
 			state := model
